@@ -258,7 +258,7 @@ def selected(axes, origin):
 '''
 exec(SPEC_SRC)
 
-SNIPPET = SPEC_SRC + r'''
+SNIPPET = SPEC_SRC.replace('%', '%%') + r'''
 import json, sys, warnings
 warnings.simplefilter('ignore')
 from abel.tools.center import set_center, center_image
